@@ -84,6 +84,12 @@ CLAIMED.update({
             "Trusted: canonical rendering through the crate's own yaml serialiser (field-for-field, bit-exact floats); table of skippable fields used to recognise the open bincode finding. Three open findings (bincode + skipped fields, bincode + Location, JSON + non-finite floats)."),
 })
 
+CLAIMED.update({
+    "C20": ("mass+trn", "exploration",
+            "Operation histories only (DESIGN 5: there is no schedule or fault in this property beyond the reload): seeded sequences of 1-12 set_mass / set_mu / set_force_max calls with every side-effect option on fuel converters, generators, batteries, locomotives (conventional and battery-electric, with and without redundant baseline / ballast / component mass data in the file, with a deliberately wrong force_max in the file) and consists of 1-4 units, interleaved with save / reload in yaml and json (init() re-checks consistency). A reference model of the documented algebra (what each option states; None = must be rejected) is stepped alongside: after every accepted update mass(), derived_mass(), mu(), force_max() and the rating are compared, a rejected update must leave every getter unchanged, an update the reference can honour must not be refused, consist mass / force_max = sums (mixed known / unknown unit masses must be refused). 5 % of the runs are train simulations (world trn): static train mass = cars (or override) + consist.",
+            "Trusted: the algebra reference (~170 lines) and its reading of 'known' = reported by mass() (stored or derived); library gravity constant; relative tolerance 1e-9 (the code's own almost_eq is 1e-8)."),
+})
+
 NOT_YET = {
     "C02": "check not built yet (planned in world trk, DESIGN 4)",
     "C03": "check not built yet (planned in world trn, DESIGN 4)",
